@@ -144,6 +144,27 @@ def run(ctx):
                 val = z if wrap == 0 else ([z] if wrap == 1 else {"a": z})
                 c.ssrc, c.schema, c.value, c.origin, c.mode, c.unmodelled = ssrc, s, val, "grid", "Plain", None
                 cases.append(c)
+    # "any Python value" includes d42's own objects and the extreme members of the accepted types: schemas passed
+    # as VALUES (alone, in a list, as a dict value; the schema itself among them) and aware datetimes whose UTC
+    # instant lies outside year 1..9999, against every leaf schema
+    import datetime as _dt
+    edge = [_dt.datetime.min.replace(tzinfo=_dt.timezone(_dt.timedelta(hours=5))),
+            _dt.datetime.max.replace(tzinfo=_dt.timezone(_dt.timedelta(hours=-5))),
+            _dt.datetime.min.replace(tzinfo=_dt.timezone.utc), _dt.datetime.max.replace(tzinfo=_dt.timezone.utc),
+            _dt.datetime.min, _dt.datetime.max, _dt.date.min, _dt.date.max]
+    as_values = ["schema.int", "schema.str('a')", "schema.none", "schema.any", "schema.dict({'id': schema.int})",
+                 "schema.list([schema.int, ...])"]
+    for ssrc in gen.LEAF_SCHEMAS:
+        s = gen.build(ssrc)
+        extra = [gen.build(x) for x in as_values] + [s, gen.build(ssrc)] + edge
+        for z in extra:
+            for wrap in (0, 1, 2):
+                if wrap and not ctx.thorough() and r.random() < 0.7:
+                    continue
+                c = vsuite.Case()
+                val = z if wrap == 0 else ([z] if wrap == 1 else {"a": z})
+                c.ssrc, c.schema, c.value, c.origin, c.mode, c.unmodelled = ssrc, s, val, "own-objects", "Plain", None
+                cases.append(c)
     fmt = Formatter()
     oracle = 0
     for c in cases:
